@@ -10,6 +10,7 @@
 #
 # Copyright 2024 - Yan Georget
 ###############################################################################
+import numpy as np
 from numba import njit  # type: ignore
 from numpy.typing import NDArray
 
@@ -33,7 +34,7 @@ def greatest_domain_var_heuristic(
     cp_top_idx = stacks_top[0]
     for dom_idx in decision_domains:
         shr_domain = shr_domains_stack[cp_top_idx, dom_idx]
-        size = shr_domain[MAX] - shr_domain[MIN]  # actually this is size - 1
+        size = np.int64(shr_domain[MAX]) - shr_domain[MIN]  # actually this is size - 1, may not fit 32 bits
         if max_size < size:
             max_idx = dom_idx
             max_size = size
